@@ -162,6 +162,20 @@ def eventStr : Event → String
   | .infoTerminal sc => s!"info depth 0 score {sc}"
   | .bestmoveNone => "bestmove 0000"
 
+def scoreStr (sc : Int) : String :=
+  match formatScore sc with
+  | .cp v => s!"cp {v}"
+  | .mate v => s!"mate {v}"
+
+/-- events as the engine prints them (score formatted by the model's `formatScore`), for exact trace comparison -/
+def eventStrF : Event → String
+  | .infoPv sc d n pv => s!"info score {scoreStr sc} depth {d} nodes {n} pv {pvStr pv}"
+  | .infoDepth d sc n pv => s!"info depth {d} score {scoreStr sc} nodes {n} pv {pvStr pv}"
+  | .currmove m k n => s!"info currmove {mvStr m} currmovenumber {k} nodes {n}"
+  | .bestmove m => s!"bestmove {mvStr m}"
+  | .infoTerminal sc => s!"info depth 0 score {scoreStr sc}"
+  | .bestmoveNone => "bestmove 0000"
+
 def lcg (s : Nat) : Nat := (s * 6364136223846793005 + 1442695040888963407) % 18446744073709551616
 
 def dispatch (f : List String) : String :=
@@ -311,6 +325,12 @@ def dispatch (f : List String) : String :=
       let env := quietEnv true
       let s ← iterDeep env 200 p d.toNat! Killers.empty (newRows env.pvRows) env.pvRows
       pure ("ok " ++ " ; ".intercalate (s.out.reverse.map eventStr))
+  | ["mtrace", fen, d, iv] => withFen fen fun p => do
+      -- exact trace of `go depth d` with currmoveLogInterval = iv under a silent oracle and a stable sort
+      -- (engine side: VERIF_STABLE_SORT=1); mid-iteration pv lines are gated off (search shorter than 200 ms)
+      let env := { quietEnv true with logInterval := iv.toInt! }
+      let s ← iterDeep env 200 p d.toNat! Killers.empty (newRows env.pvRows) env.pvRows
+      pure ("ok " ++ " ; ".intercalate (s.out.reverse.map eventStrF))
   | ["spv", fen, pv] => withFen fen fun p => do
       -- replay a principal variation with the specification: ok <n> | bad <index>
       let mut sp := abs p
